@@ -456,7 +456,7 @@ func runTreeScenario(w *ndWriter, seed int64, variant string, nEvents int, idx i
 		}
 		s.randomRefilter(rng, 50)
 		close(firstGate)
-		if (variant == "close" || variant == "refilter") && rng.Intn(3) == 0 {
+		if (variant == "close" || variant == "refilter" || variant == "monitor") && rng.Intn(3) == 0 {
 			// shut the root down at the very moment it becomes ready: descendants that are just being told
 			// "parent ready" find a parent cache that is already stopping
 			time.Sleep(time.Duration(rng.Intn(300)) * time.Microsecond)
